@@ -178,6 +178,51 @@ Proof.
   apply (decode_bits_b64_nan _ R). rewrite E. exact N.
 Qed.
 
+(* ---------- any transported integer; the float parsers end to end ---------- *)
+(* the binary64 a case-line integer denotes (the Go side writes math.Float64bits, which is
+   already in [0, 2^64); other integers are read modulo 2^64, as [decode_bits] does) *)
+Definition b64_of_line (b : Z) : binary64 := b64_of_bits (b mod 2 ^ 64).
+Lemma b64_of_line_in_range b : (0 <= b < 2 ^ 64)%Z -> b64_of_line b = b64_of_bits b.
+Proof. intro H. unfold b64_of_line. rewrite Z.mod_small by exact H. reflexivity. Qed.
+
+Theorem decode_bits_b64_all b :
+  match decode_bits b with
+  | XFin q => is_finite 53 1024 (b64_of_line b) = true /\ Q2R q = B2R 53 1024 (b64_of_line b)
+  | XNaN => fl_is_nan 53 1024 (b64_of_line b) = true
+  | XInf s => b64_of_line b = B754_infinity 53 1024 s
+  end.
+Proof.
+  unfold b64_of_line. pose proof (mod64_range b) as R. rewrite (decode_bits_mod64 b).
+  destruct (decode_bits (b mod 2 ^ 64)) as [|s|q] eqn:D.
+  - apply (decode_bits_b64_nan _ R). exact D.
+  - apply (decode_bits_b64_inf _ s R). exact D.
+  - apply (decode_bits_b64_fin _ q R D).
+Qed.
+
+(* [pQ] yields exactly the real value of the finite float at the head of the line; [pX] yields
+   its exact classification *)
+Theorem pQ_sound_R l q r : pQ l = Some (q, r) ->
+  exists b, l = b :: r /\ is_finite 53 1024 (b64_of_line b) = true /\ Q2R q = B2R 53 1024 (b64_of_line b).
+Proof.
+  intro H. apply pQ_some in H. destruct H as (b & -> & D). exists b. split; [reflexivity|].
+  pose proof (decode_bits_b64_all b) as A. rewrite D in A. exact A.
+Qed.
+Theorem pX_sound_R l x r : pX l = Some (x, r) ->
+  exists b, l = b :: r /\
+    match x with
+    | XFin q => is_finite 53 1024 (b64_of_line b) = true /\ Q2R q = B2R 53 1024 (b64_of_line b)
+    | XNaN => fl_is_nan 53 1024 (b64_of_line b) = true
+    | XInf s => b64_of_line b = B754_infinity 53 1024 s
+    end.
+Proof.
+  intro H. apply pX_some in H. destruct H as (b & -> & ->). exists b. split; [reflexivity|].
+  apply decode_bits_b64_all.
+Qed.
+
+(* unit round-off *)
+Theorem Q2R_ulp53 : Q2R ulp53 = bpow radix2 (-53).
+Proof. change ulp53 with (two_pow (-53)). apply Q2R_two_pow. Qed.
+
 (* ---------- comparators over the reals ---------- *)
 Theorem within_sound_R tol e o : within tol e o = true -> Rabs (Q2R o - Q2R e) <= Q2R tol.
 Proof.
@@ -202,6 +247,29 @@ Proof.
 Qed.
 Theorem xeq_fin_R e o : xeq (XFin e) o = true -> exists q, o = XFin q /\ Q2R q = Q2R e.
 Proof. intro H. apply xeq_fin in H. destruct H as (q & -> & H). exists q. split; [reflexivity|]. apply Qeq_eqR. exact H. Qed.
+
+(* the full reading of [xwithin] *)
+Theorem xwithin_spec_R tol e o : xwithin tol e o = true <->
+  match e, o with
+  | XNaN, XNaN => True
+  | XInf a, XInf b => a = b
+  | XFin x, XFin y => Rabs (Q2R y - Q2R x) <= Q2R tol
+  | _, _ => False
+  end.
+Proof.
+  rewrite xwithin_spec. destruct e as [|a|x], o as [|b|y]; try tauto.
+  split; intro H.
+  - apply Qle_Rle in H. rewrite Q2R_Qabs, Q2R_minus in H. exact H.
+  - apply Rle_Qle. rewrite Q2R_Qabs, Q2R_minus. exact H.
+Qed.
+(* relative reading of [close] when the expected value is not 0 *)
+Theorem close_sound_rel_R rel abs e o : close rel abs e o = true -> Q2R e <> 0 ->
+  Rabs (Q2R o - Q2R e) / Rabs (Q2R e) <= Q2R rel + Q2R abs / Rabs (Q2R e).
+Proof.
+  intros H N. apply close_sound_R in H. pose proof (Rabs_pos_lt _ N) as P.
+  apply Rmult_le_reg_r with (r := Rabs (Q2R e)); [exact P|].
+  unfold Rdiv. rewrite Rmult_assoc, Rinv_l by lra. rewrite Rmult_plus_distr_r, Rmult_assoc, Rinv_l by lra. lra.
+Qed.
 
 (* close_sqrt compares squares; over the reals that bounds the distance to the square root.
    With s >= 0, v >= 0:  |s - sqrt v| * (s + sqrt v) = |s^2 - v| <= tol. *)
@@ -254,6 +322,25 @@ Proof.
   unfold Rdiv. rewrite Rmult_assoc, Rinv_l by lra. rewrite Rmult_1_r, Rmult_assoc, Hqq. exact Hr.
 Qed.
 
+(* v = 0: the observation is at most sqrt tol (and 0 if tol = 0) *)
+Theorem close_sqrt_sound_zero tol v s : close_sqrt tol v s = true -> Q2R v = 0 ->
+  0 <= Q2R s <= sqrt (Q2R tol).
+Proof.
+  intros H Hv. destruct (close_sqrt_sound_abs tol v s H ltac:(lra)) as [Hs B].
+  rewrite Hv, sqrt_0, Rminus_0_r in B. rewrite Rabs_pos_eq in B by exact Hs. lra.
+Qed.
+
+(* the form of DESIGN section 3: a tolerance rel * v on the square gives relative error rel on
+   the root, for every v >= 0 (v = 0 forces s = 0) *)
+Theorem close_sqrt_sound_design rel v s : close_sqrt (rel * v) v s = true -> 0 <= Q2R v ->
+  Rabs (Q2R s - sqrt (Q2R v)) <= Q2R rel * sqrt (Q2R v).
+Proof.
+  intros H Hv. destruct (Rle_lt_or_eq_dec _ _ Hv) as [P|Z].
+  - apply (close_sqrt_sound_rel _ _ _ _ H P). rewrite Q2R_mult. lra.
+  - destruct (close_sqrt_sound_abs _ _ _ H Hv) as [_ B]. rewrite Q2R_mult, <- Z, Rmult_0_r in B.
+    rewrite <- Z. rewrite sqrt_0 in *. lra.
+Qed.
+
 (* non-vacuity *)
 Example close_sqrt_ex : close_sqrt (1 # 100) 2 (1414 # 1000) = true.
 Proof. reflexivity. Qed.
@@ -276,3 +363,10 @@ Print Assumptions xwithin_fin_R.
 Print Assumptions close_sqrt_sound_abs.
 Print Assumptions close_sqrt_sound.
 Print Assumptions close_sqrt_sound_rel.
+Print Assumptions decode_bits_b64_all.
+Print Assumptions pQ_sound_R.
+Print Assumptions pX_sound_R.
+Print Assumptions xwithin_spec_R.
+Print Assumptions close_sound_rel_R.
+Print Assumptions close_sqrt_sound_zero.
+Print Assumptions close_sqrt_sound_design.
